@@ -39,6 +39,8 @@ def params(cfg):
         "obs_num_ems": cfg.get("obs_num_ems", 40), "normalize": cfg.get("normalize", True),
         "debug": cfg.get("debug", False), "reward": cfg.get("reward", "dense"),
         "perfect": (gen or "random") in ("random", "toy"),  # generators advertised as exactly filling the container
+        # container_dims argument of the generator; the documented default is a 20-ft container (5870 x 2330 x 2200 mm)
+        "container": [int(x) for x in cfg.get("container", [5870, 2330, 2200])],
     }
 
 
@@ -372,6 +374,8 @@ def _reset_state_problems(P, S0):
     if np.any(c[[0, 2, 4]] != 0) or np.any(cd <= 0):
         out.append(f"container_well_formed: container {c.tolist()} does not start at the origin with positive lengths")
         return out
+    if [int(x) for x in cd] != list(P.params["container"]):
+        out.append(f"container_is_configured_container: container lengths {cd.tolist()} != configured container_dims {P.params['container']}")
     items = _items(S0)
     valid = np.asarray(S0["items_mask"]).astype(bool)
     if valid.sum() < 1:
@@ -481,14 +485,16 @@ def generator_checks(P, env, rng, tier):
             out.extend(f"call_unpacked: key {k}: {p}" for p in _reset_state_problems(P, ini))
     if P.params["gen"] == "csv":
         # independent round trip: a file written here must come back item for item (quantities expanded in order)
-        rows = [("a", 1000, 700, 300, 3), ("b", 1100, 430, 250, 1), ("c", 5870, 2330, 2200, 2), ("d", 1, 2, 3, 4)]
+        cl, cw, ch = P.params["container"]
+        rows = [("a", min(1000, cl), min(700, cw), min(300, ch), 3), ("b", min(1100, cl), min(430, cw), min(250, ch), 1),
+                ("c", cl, cw, ch, 2), ("d", 1, 2, 3, 4)]
         fd, path = tempfile.mkstemp(prefix="jmon-binpack-own-", suffix=".csv")
         try:
             with os.fdopen(fd, "w", newline="") as f:
                 w = csv.writer(f)
                 w.writerow(["Item_Name", "Length", "Width", "Height", "Quantity"])
                 w.writerows(rows)
-            g2 = type(gen)(path, gen.max_num_ems)
+            g2 = type(gen)(path, gen.max_num_ems, container_dims=tuple(P.params["container"]))
             st = decode(g2(jax.random.PRNGKey(0)))
             P.hit("csv_round_trip")
             exp = _csv_items(rows)
